@@ -496,10 +496,15 @@ def forward_signatures(func, calls, args, kwargs, sig):
 
 def autoforwards_partial(par, args, kwargs):
     sig = autoforwards(par.func, par.args, {})
-    return _signatures._mask(
-        sig, len(par.args),
-        False, False, False, False,
-        par.keywords or {}, par)
+    try:
+        return _signatures._mask(
+            sig, len(par.args),
+            False, False, False, False,
+            par.keywords or {}, par)
+    except ValueError:
+        # the partial binds arguments the discovered signature cannot take:
+        # the call would fail, but the partial object does have a signature
+        raise UnknownForwards
 
 
 def any_params_star(sig):
